@@ -354,6 +354,14 @@ def nsga3_call_oracle(pop, wv, sel, k, cap, refs, mem, flat, F):
             return ("individual %d of front %d is left out although individual %d of front %d is selected"
                     % (q, rank[q], x, rank[x])), pos, False, mem
     best, intercepts, mem2 = independent_normalisation(F, mem)
+    # the normalisation must never divide by a non-positive number (line 627: intercepts - best + eps),
+    # neither with the implementation's own ideal point / intercepts nor with the rebuilt ones
+    for what, b_, i_ in (("implementation's", numpy.array(cap["best"]).reshape(-1), numpy.array(cap["intercepts"]).reshape(-1)),
+                         ("rebuilt", best, intercepts)):
+        den = i_ - b_ + EPS
+        if not numpy.all(den > 0):
+            return ("normalisation: %s denominators intercepts - ideal + eps = %s are not positive (ideal %s, "
+                    "intercepts %s)" % (what, den.tolist(), b_.tolist(), i_.tolist())), pos, False, mem2
     # (a) the association the implementation used, judged in the independently normalised space
     if len(cap["niches"]) != len(flat):
         return "association covers %d individuals, %d were sorted" % (len(cap["niches"]), len(flat)), pos, False, mem2
@@ -414,6 +422,41 @@ def nsga3_lines(pop, cap, k, sel_pos, near, memory=None, norm=None):
         lines.append("C07 mem %s %s %s" % (flist2(cap["fitnesses"]), flist(b0), flist(w0)))
         expect.append("%s %s" % (flist(mem.best_point.reshape(-1)), flist(mem.worst_point.reshape(-1))))
     return lines, expect
+
+
+def translation_oracle(d, w, vals, k, refs, cap, F, flat):
+    """NSGA-III's association lives in the objective space translated to the ideal point, so shifting every
+    objective vector by one constant vector must leave it unchanged: run the real selNSGA3 on a translated
+    copy of the population with the same shuffles and compare the association it used."""
+    trng = _random.Random(d.get("seed", 0) ^ 0x5A17)
+    t = [trng.choice([-7, -3, -1, 2, 5, 11, 0.5, -2.5]) for _ in w]
+    vals2 = [[x + ti for x, ti in zip(v, t)] for v in vals]
+    wv2 = [tuple(float(x) * float(Fr(ww)) for x, ww in zip(v, w)) for v in vals2]
+    pop2 = make_pop(w, vals2)
+    F2all = numpy.array([[-x for x in wv2[p]] for p in flat], dtype=float)
+    shift = F2all - F
+    if d.get("shape") in ("asf", "tiny") or not numpy.array_equal(F2all - shift[0], F) or not numpy.array_equal(F + shift[0], F2all):
+        return None                      # values at the 1e-6 scale: the shift is not exact in binary64
+    if not numpy.all(shift == shift[0]) or numpy.max(numpy.abs(F)) > 1e6 or (numpy.max(numpy.abs(F)) < 1e-3 and numpy.max(numpy.abs(F)) > 0):
+        return None                      # the shift is not exact in binary64: nothing to compare
+    with Capture() as cp2, NpShuffle(_random.Random(d.get("seed", 0))):
+        tools.selNSGA3(pop2, k, refs, nd=d["nd"])
+    cap2 = cp2.calls[-1]
+    flat2 = positions(pop2, [x for fr in cap2["fronts"] for x in fr])
+    if flat2 != flat:
+        return None                      # (cannot happen for an exact shift; the sort is C04's business)
+    n1, n2 = numpy.array(cap["niches"]), numpy.array(cap2["niches"])
+    if not numpy.array_equal(n1, n2):
+        bad = int(numpy.flatnonzero(n1 != n2)[0])
+        return ("association is not translation invariant: shifting every objective vector by %s moves "
+                "flattened-front position %d from reference %d to reference %d (ideal %s, intercepts %s; "
+                "shifted: ideal %s, intercepts %s)" % (t, bad, n1[bad], n2[bad], numpy.array(cap["best"]).tolist(),
+                                                     numpy.array(cap["intercepts"]).tolist(), numpy.array(cap2["best"]).tolist(),
+                                                     numpy.array(cap2["intercepts"]).tolist()))
+    d1, d2 = numpy.array(cap["dist"]), numpy.array(cap2["dist"])
+    if not numpy.allclose(d1, d2, rtol=1e-6, atol=1e-9):
+        return "perpendicular distances change under a translation of the objective space: %s vs %s" % (d1.tolist(), d2.tolist())
+    return None
 
 
 def eval_spea2(d):
@@ -494,6 +537,10 @@ def eval_nsga3(d):
             msg = m
         if any(p is None for p in pos):
             break
+        if m is None and selector is None and not near:
+            m = translation_oracle(d, w, vals, k, refs, cap, F, flat)
+            if m and msg is None:
+                msg = m
         l, e = nsga3_lines(pop, cap, k, pos, near, memory, (F, imem0, impl))
         lines += l
         expect += e
